@@ -78,7 +78,19 @@ def check(run: Run, prog: Program, model: Model, tier: str) -> None:
         " Two members deep, the member pinned at position j derives from value[j] (no equality-keyed memo); an exact element list generates one member per element under every length prop-set; the conversion used for free-form positions is not memoised by equality.")
     run.explanation += " GIVEN-KEYS (inside DICT-TABLE): a key of the value that the table does not declare is refused - a condition over all keys of the value is tested on the path, or the pre-validation of that table has an extra-key row. NATIVE-CONTRACT: C14's ARM/FINAL obligations for from_native are re-derived, because free positions rely on them."
     run.rule_text = "obligations per (visit method, prop-set/shape) and clause; non-trivial = result tables computed on interpreter paths"
+    from ..entry import entry_transparent
+    entry_transparent(run, prog, model, "validate", "VALIDATE-ENTRY")
+    entry_transparent(run, prog, model, "substitute", "SUBSTITUTE-ENTRY")
     # ---------------------------------------------------------------- PIN
+    pin_obligations(run, prog, model, tier, "PIN")
+    run.floor("PIN", 20)
+    _rest(run, prog, model, tier)
+
+
+def pin_obligations(run: Run, prog: Program, model: Model, tier: str, rule: str) -> None:
+    """Scalars: the result is schema.__class__(schema.props.update(value=<the validated value>)).  Also used by C01:
+    a generator that hands out props.value relies on every producer of that payload (the declaration: C10.VALCHK; the
+    substitutor: this rule) storing a value that was validated against the other props."""
     for hook in SCALARS:
         f = model.visitors["Substitutor"].lookup(hook)
         st = model.by_hook[hook]
@@ -106,12 +118,13 @@ def check(run: Run, prog: Program, model: Model, tier: str) -> None:
             if not rets:
                 probs.append("no path returns a schema")
             if probs:
-                run.violated("PIN", construct, f.loc, "; ".join(sorted(set(probs)))[:300],
+                run.violated(rule, construct, f.loc, "; ".join(sorted(set(probs)))[:300],
                              witness=f"fake(schema % v) != v / validate(schema % v, v) fails for a conforming v")
             else:
-                run.holds("PIN", construct, f.loc, "schema.__class__(schema.props.update(value=value))", nontrivial=True)
-    run.floor("PIN", 20)
+                run.holds(rule, construct, f.loc, "schema.__class__(schema.props.update(value=value))", nontrivial=True)
 
+
+def _rest(run: Run, prog: Program, model: Model, tier: str) -> None:
     # ---------------------------------------------------------------- DICT-TABLE
     fd = model.visitors["Substitutor"].lookup("visit_dict")
     st = model.by_hook["visit_dict"]
